@@ -119,6 +119,7 @@ type sliceDef struct {
 	attrVars []attrVariant // nil: only the short .gitattributes files of the shape table
 	revs     []revSpec     // nil: every revision argument of the shape in this tier
 	excl     []exclSpec    // nil: every fetchexclude value of the shape
+	cwds     []string      // nil: fsck is started from the top of the work tree; else: from each of these sub-directories (relative, must exist in the work tree)
 	skip     bool          // VERIF_ONLY (debugging aid) deselected this slice; it keeps its position so that choice vectors stay valid
 }
 
@@ -183,8 +184,8 @@ func makePlan(shs []shape, thorough bool) plan {
 			}
 		}
 		p.revs = append(p.revs, revs)
-		if sh.family == "index" {
-			continue // the index-state shapes have their own slices (indexSlices), appended below
+		if sh.family != "" {
+			continue // the index-state shapes and the attribute-layout world have their own slices (indexSlices, attrSlices), appended below
 		}
 		n := len(sh.objects)
 		none := make([]int, n)
@@ -249,6 +250,8 @@ func makePlan(shs []shape, thorough bool) plan {
 	p.slices = append(append([]sliceDef{rest[0]}, front...), rest[1:]...)
 	// the index-state dimension of the no-argument form (c13_index_verif_test.go); appended, so the positions of the history slices stay
 	p.slices = append(p.slices, indexSlices(shs, thorough)...)
+	// the attribute-layout dimension of the checked commits and the invoking-directory dimension (c13_attr_verif_test.go); appended last
+	p.slices = append(p.slices, attrSlices(shs, thorough, p.revs)...)
 	if only := os.Getenv("VERIF_ONLY"); only != "" { // debugging aid: explore only the slices whose name starts with one of the comma-separated prefixes
 		for i := range p.slices {
 			keep := false
@@ -447,8 +450,15 @@ func (ev *env) run(x *vx.X) vx.Result {
 	rv := revs[x.In(len(revs))]
 	fl := sl.flags[x.In(len(sl.flags))]
 	ex := excls[x.In(len(excls))]
+	cwd := ""
+	if sl.cwds != nil { // (no choice point for the slices that always start at the top: their choice vectors stay as they were)
+		cwd = sl.cwds[x.In(len(sl.cwds))]
+	}
 
 	id := fmt.Sprintf("%s forms=%s attrs=%s damage=%s rev=%q flags=%v exclude=%q include=%q", sh.name, formKey(assign), av.name, vecKey(vec), rv.arg, fl.args, ex.pattern, ex.include)
+	if cwd != "" {
+		id += fmt.Sprintf(" cwd=%q", cwd)
+	}
 	res := vx.Result{Counters: map[string]int64{}}
 	sample := map[string]interface{}{"shape": sh.name, "forms": formKey(assign), "gitattributes": av.name, "rev": rv.arg, "flags": strings.Join(fl.args, " "), "fetchexclude": ex.pattern, "fetchinclude": ex.include}
 	dm := map[string]string{}
@@ -458,6 +468,31 @@ func (ev *env) run(x *vx.X) vx.Result {
 		}
 	}
 	sample["damage"] = dm
+	if cwd != "" {
+		sample["started_from"] = cwd + "/"
+	}
+	// family attrlay: the layout of the attribute files of commit c; the fingerprint of a wrong answer about a path the layout's
+	// mechanism applies to ends in the mechanism's name (one defect class each), everywhere else fingerprints are as before
+	layClass := func(commitIdx, path string) string {
+		if sh.layouts == nil || commitIdx == "" {
+			return ""
+		}
+		c, err := strconv.Atoi(commitIdx)
+		if err != nil || c < 0 || c >= len(sh.layouts) {
+			return ""
+		}
+		if cl := sh.layouts[c].classOf(path); cl != "" {
+			return ":" + cl
+		}
+		return ""
+	}
+	if sh.layouts != nil {
+		var ls []string
+		for _, c := range rv.commits {
+			ls = append(ls, sh.layouts[c].name)
+		}
+		sample["attribute_layouts_of_the_checked_commits"] = ls
+	}
 	res.Sample = sample
 
 	base := ev.bases.get(sh, assign, av)
@@ -489,7 +524,15 @@ func (ev *env) run(x *vx.X) vx.Result {
 	if rv.arg != "" {
 		args = append(args, rv.arg)
 	}
-	cr := ev.world.LFS(dir, args...)
+	runDir := dir
+	if cwd != "" {
+		runDir = filepath.Join(dir, filepath.FromSlash(cwd))
+		if fi, err := os.Stat(runDir); err != nil || !fi.IsDir() {
+			res.ToolErr = "invoking directory " + cwd + " does not exist in the work tree of the base repository"
+			return res
+		}
+	}
+	cr := ev.world.LFS(runDir, args...)
 	if cr.TimedOut {
 		res.Inconcl = "git lfs fsck timed out (tool guard)"
 		return res
@@ -500,8 +543,14 @@ func (ev *env) run(x *vx.X) vx.Result {
 	sample["exit"] = cr.Code
 	sample["stdout"] = cr.Out
 
+	seenFp := map[string]bool{}
 	viol := func(fp, msg string) {
-		if len(res.Violations) < 8 {
+		// one violation per fingerprint and case; the maps below are walked in sorted order, so which one is kept does not depend on map order
+		if seenFp[fp] {
+			return
+		}
+		seenFp[fp] = true
+		if len(res.Violations) < 16 {
 			res.Violations = append(res.Violations, vx.Violation{Fingerprint: fp, Msg: msg + "\ncase: " + id + "\n" + cr.String(),
 				Detail: map[string]interface{}{"case": id, "exit": cr.Code, "stdout": cr.Out, "stderr": cr.Err}})
 		}
@@ -527,7 +576,8 @@ func (ev *env) run(x *vx.X) vx.Result {
 		reported[o] = true
 	}
 	nMustBad := 0
-	for oid, lv := range exp.obj {
+	for _, oid := range sortedStrKeys(exp.obj) {
+		lv := exp.obj[oid]
 		if !isBad(oid) {
 			continue
 		}
@@ -568,7 +618,7 @@ func (ev *env) run(x *vx.X) vx.Result {
 			}
 		}
 	}
-	for oid := range reported {
+	for _, oid := range sortedKeys(reported) {
 		switch {
 		case !inStore[oid] && exp.obj[oid] == lvNone:
 			viol("C13:object-falsely-reported:unknown-oid", fmt.Sprintf("fsck names object %s which no checked file references", oid))
@@ -599,7 +649,8 @@ func (ev *env) run(x *vx.X) vx.Result {
 
 	// ---- clause P1/P2: pointer problems
 	nMustPtr := 0
-	for sha, oid := range exp.ncMust {
+	for _, sha := range sortedStrKeys(exp.ncMust) {
+		oid := exp.ncMust[sha]
 		nMustPtr++
 		if got, ok := rep.nc[sha]; ok {
 			cnt("P1.noncanonical-pointer-named/" + exp.ncWhy[sha])
@@ -607,18 +658,27 @@ func (ev *env) run(x *vx.X) vx.Result {
 				viol("C13:pointer-misreported:wrong-oid", fmt.Sprintf("non-canonical pointer blob %s reported with oid %s, want %s", sha, got, oid))
 			}
 		} else {
-			viol("C13:pointer-not-reported:noncanonical-"+exp.ncWhy[sha], fmt.Sprintf("tracked file in a checked commit is a non-canonical pointer (blob %s, form %s) but fsck does not name it", sha, exp.ncWhy[sha]))
+			at := exp.ncAt[sha]
+			fp := "C13:pointer-not-reported:noncanonical-" + exp.ncWhy[sha]
+			if cl := layClass(at[0], at[1]); cl != "" {
+				fp = "C13:pointer-not-reported" + cl // one class per attribute mechanism, whatever the form of the file
+			}
+			viol(fp, fmt.Sprintf("tracked file in a checked commit is a non-canonical pointer (blob %s, form %s) but fsck does not name it", sha, exp.ncWhy[sha]))
 		}
 	}
-	for p := range exp.rawMust {
+	for _, p := range sortedKeys(exp.rawMust) {
 		nMustPtr++
 		if rep.rawPaths[p] {
 			cnt("P1.non-pointer-file-named")
 		} else {
-			viol("C13:pointer-not-reported:raw-content", fmt.Sprintf("tracked file %q in a checked commit is raw content, not a pointer, but fsck does not name it", p))
+			fp := "C13:pointer-not-reported:raw-content"
+			if cl := layClass(exp.rawAt[p], p); cl != "" {
+				fp = "C13:pointer-not-reported" + cl
+			}
+			viol(fp, fmt.Sprintf("tracked file %q in a checked commit is raw content, not a pointer, but fsck does not name it", p))
 		}
 	}
-	for sha := range rep.nc {
+	for _, sha := range sortedStrKeys(rep.nc) {
 		if _, ok := exp.ncMust[sha]; ok {
 			continue
 		}
@@ -629,10 +689,17 @@ func (ev *env) run(x *vx.X) vx.Result {
 		why := "out-of-scope"
 		if !fl.pointers {
 			why = "pointers-check-not-requested"
+		} else if at, ok := exp.untrackedNC[sha]; ok {
+			// the blob is a file of an inspected commit at a path which, by git's own attribute lookup on that tree, does not have filter=lfs
+			why = "untracked-path"
+			if cl := layClass(at[0], at[1]); cl != "" {
+				viol("C13:pointer-falsely-reported:untracked-path"+cl, fmt.Sprintf("fsck reports blob %s (%q) as non-canonical pointer, but in that commit the path does not have filter=lfs (git check-attr on the commit's tree)", sha, at[1]))
+				continue
+			}
 		}
 		viol("C13:pointer-falsely-reported:noncanonical:"+why, fmt.Sprintf("fsck reports blob %s as non-canonical pointer but no tracked file of a checked commit is that blob", sha))
 	}
-	for pair := range rep.raw {
+	for _, pair := range sortedKeys(rep.raw) {
 		p := pair[41:]
 		if exp.rawPairs[pair] {
 			if exp.rawMay[p] && !exp.rawMust[p] {
@@ -642,6 +709,15 @@ func (ev *env) run(x *vx.X) vx.Result {
 		}
 		if exp.rawIndexOnly[p] {
 			cnt("P.may-named/raw-index-only")
+			continue
+		}
+		if c, ok := exp.untrackedAt[pair]; ok && fl.pointers {
+			// the file exists in that inspected commit, but git's own attribute lookup on that tree says it does not have filter=lfs
+			fp := "C13:pointer-falsely-reported:raw:untracked-path"
+			if cl := layClass(c, p); cl != "" {
+				fp = "C13:pointer-falsely-reported:untracked-path" + cl
+			}
+			viol(fp, fmt.Sprintf("fsck reports %q (treeish %s) as non-pointer, but in that commit the path does not have filter=lfs (git check-attr on the commit's tree)", p, pair[:40]))
 			continue
 		}
 		if exp.rawMay[p] || exp.rawMust[p] {
@@ -662,6 +738,33 @@ func (ev *env) run(x *vx.X) vx.Result {
 	}
 	if fl.pointers && len(exp.ncMust)+len(exp.ncMay)+len(exp.rawMust)+len(exp.rawMay) == 0 && len(rep.nc)+len(rep.raw) == 0 {
 		cnt("P2.no-pointer-problem-none-named")
+	}
+	// the "nothing else" half over paths that an attribute line takes out of LFS (or that no line puts into it): content or a
+	// non-canonical pointer there, and fsck silent about it
+	if fl.pointers {
+		for pair, c := range exp.untrackedAt {
+			if !rep.raw[pair] {
+				ci, _ := strconv.Atoi(c)
+				cnt("P2.file-at-path-without-filter=lfs-not-named/" + sh.layouts[ci].name)
+			}
+		}
+		for _, c := range rv.commits {
+			if sh.layouts != nil {
+				cnt("L.attribute-layout-checked/" + sh.layouts[c].name)
+			}
+		}
+	}
+	if cwd != "" {
+		what := "no-argument"
+		if strings.Contains(rv.arg, "..") {
+			what = "range"
+		} else if rv.arg != "" {
+			what = "committish"
+		}
+		cnt("W.started-from-sub-directory/" + sh.name + "/" + cwd + "/" + what)
+		if nMustPtr > 0 {
+			cnt("W.started-from-sub-directory-with-demanded-pointer-problem/" + what)
+		}
 	}
 	for _, u := range rep.unknown {
 		if strings.HasPrefix(u, "objects:") || strings.HasPrefix(u, "pointer:") {
@@ -853,6 +956,9 @@ func (ev *env) run(x *vx.X) vx.Result {
 		nontrivial = true
 		res.Counters["A.padded-gitattributes-case/"+av.name]++
 	}
+	if cwd != "" || sh.family == "attrlay" {
+		nontrivial = true
+	}
 	if sh.family == "index" {
 		res.Counters["I.index-state/"+strings.TrimPrefix(sh.name, "ix-")+"/"+formKey(assign)]++
 		if sh.index != nil && rv.useIndex {
@@ -895,6 +1001,9 @@ func TestVerifC13(t *testing.T) {
 		}
 		avs, rvs, exs := sl.domains(&ev.plan, &sh)
 		n := len(sl.forms) * len(avs) * len(sl.damages) * len(rvs) * len(sl.flags) * len(exs)
+		if sl.cwds != nil {
+			n *= len(sl.cwds)
+		}
 		total += n
 		if sh.family == "index" {
 			// one slice per staged state: listed per group, the per-state products have the same domains except that ixform/* exists only for states with a form slot
@@ -908,14 +1017,25 @@ func TestVerifC13(t *testing.T) {
 			m["cases"] += n
 			continue
 		}
-		per[sl.name] = map[string]int{"form_assignments": len(sl.forms), "gitattributes_variants": len(avs), "damage_vectors": len(sl.damages), "rev_args": len(rvs), "flag_sets": len(sl.flags), "fetchexclude_values": len(exs), "cases": n}
+		m := map[string]int{"form_assignments": len(sl.forms), "gitattributes_variants": len(avs), "damage_vectors": len(sl.damages), "rev_args": len(rvs), "flag_sets": len(sl.flags), "fetchexclude_values": len(exs), "cases": n}
+		if sl.cwds != nil {
+			m["invoking_directories"] = len(sl.cwds)
+		}
+		per[sl.name] = m
 	}
 	nHist := 0
 	var ixNames []string
 	for _, sh := range shs {
-		if sh.family == "index" {
+		switch sh.family {
+		case "index":
 			ixNames = append(ixNames, strings.TrimPrefix(sh.name, "ix-"))
-		} else {
+		case "attrlay":
+			var ln []string
+			for _, l := range sh.layouts {
+				ln = append(ln, l.name)
+			}
+			c.Bounds["attribute_layouts"] = ln
+		default:
 			nHist++
 		}
 	}
@@ -934,7 +1054,7 @@ func TestVerifC13(t *testing.T) {
 	c.Bounds["damage_kinds"] = damageNames[1:]
 	c.Bounds["slices"] = per
 	c.Bounds["planned_cases"] = total
-	c.Rule = "one case = (shape, pointer-form assignment to the 3 form slots, .gitattributes size/layout variant, damage vector over the local objects, revision argument, flag set, lfs.fetchexclude value); " +
+	c.Rule = "one case = (shape, pointer-form assignment to the 3 form slots, .gitattributes size/layout variant, damage vector over the local objects, revision argument, flag set, lfs.fetchexclude value, directory fsck is started from [top of the work tree except in the cwd/* slices]); " +
 		"the explored set is a union of disjoint COMPLETE products (slices, listed with their sizes under bounds.slices), every slice crossed with every revision argument and fetchexclude value of its shape: " +
 		"quick: objects/* = all-canonical history x every damage vector with <=1 damaged object (5 damage kinds) x {no flag, --dry-run} (fetchexclude crossed only for shape dup); pointers/* = every other assignment over {canon,crlf,raw} x the mixed damage vector x {no flag, --pointers, --objects}. " +
 		"thorough: objects1/* = {all canonical, one mixed assignment} x <=1 damaged x {no flag, --objects, --pointers, --dry-run}; objects2/* = all canonical x exactly 2 damaged (all kind pairs) x {no flag}; pointers/* = every other assignment over {canon,crlf,raw,nonl} x {intact, mixed damage} x {no flag, --pointers, --dry-run}; " +
@@ -945,7 +1065,10 @@ func TestVerifC13(t *testing.T) {
 		"(add, modify, type change pointer->content, rm --cached, rm, mv within a directory / into a sub-directory / from the excluded directory to a non-excluded one (also into a sub-directory) / the other way / both at once, mv + new content, mv + new file at the old path, chained mv, swapped contents, copy within / out of / into the excluded directory / to an excluded and a non-excluded path at once; each self-checked against `git diff-index -M --cached HEAD`: A, M, D, R100, R<100); one entry per state takes its form from a slot (canonical = plain operation, crlf/nonl = rename + edit with similarity < 100%, raw = staged content instead of a pointer).  " +
 		"quick: ixobj/<state> = main form x {intact, every one of the 4 referenced objects c0..c3 deleted, every one bit-flipped} x no argument x no flag x 4 filter configurations {none, fetchexclude=skip/, fetchinclude=keep/, both}; ixform/<state> = the other forms of {canon,crlf,raw} x one mixed damage vector x {none, fetchexclude=skip/} x {no flag, --pointers}; ixflags/<state> = main form x mixed vector x fetchexclude=skip/ x {no argument, HEAD} x {no flag, --objects, --pointers, --dry-run}.  " +
 		"thorough: ixobj = all 5 damage kinds on every object; ixobj-morecfg = 3 more configurations {fetchexclude=/keep/a.bin (old path of the moves only), fetchexclude=m.bin (new path only), fetchinclude=skip/} x {deleted, bit flip}; ixform = other forms of {canon,crlf,raw,nonl} x {intact, 2 mixed vectors} x 3 configurations x {no flag, --pointers, --dry-run}; ixflags = 2 mixed vectors x 2 configurations x {no argument, HEAD} x 5 flag sets.  " +
-		"distinct_nontrivial = distinct cases in which at least one object is damaged, one path is not a canonical pointer, a .gitattributes file is padded or the examined index differs from HEAD (all-intact all-canonical cases of an unchanged index only count as executions)"
+		"both tiers, ATTRIBUTE LAYOUTS of the checked commits (c13_attr_verif_test.go): one world 'al' whose every commit has another layout of .gitattributes / vendor/.gitattributes (listed under bounds.attribute_layouts: the subject path vendor/lib.bin taken out of LFS after a general `*.bin filter=lfs` line by -filter / !filter / filter=<other> / !<macro> / -<macro>, in the same file, by a more specific pattern or by the nested file; left in LFS by a -text-only line; made LFS by the nested file only; switched on again after being switched off; `lockable` on the filter line, on its own line after / before / nested, and alone) over the same files (a.bin = control path, vendor/lib.bin = subject path, 3 text files); which paths have filter=lfs in a commit is git's own answer (`git check-attr --cached filter` on a throw-away index holding that commit's tree, empty work tree), never a model of an attributes parser.  " +
+		"quick: attrlay/each = every assignment over {canon,crlf,raw} to (control, subject) x every layout as a single committish (HEAD, HEAD~k) x --pointers; attrlay/multi = every assignment x {no argument, the whole history as one range} x {no flag, --pointers}.  thorough: alphabet {canon,crlf,raw,nonl} x {intact, one mixed damage vector} x {no flag, --pointers, --objects, --dry-run}.  " +
+		"both tiers, INVOKING DIRECTORY (slices cwd/*): fsck started from a sub-directory of the work tree instead of its top, expectation unchanged: cwd/al = every assignment x {vendor/ (holds the subject path), docs/ (holds no LFS path)} x {no argument, HEAD, HEAD~1, HEAD~2..HEAD} x {no flag} (thorough: + --pointers, --dry-run, damage); cwd/dup = all 27 assignments over {canon,crlf,raw} x sub/ x every revision argument of shape dup x the mixed damage vector x {no flag} (thorough: + --pointers, --dry-run); cwd/ix-<state> = every staged index state (main form) x keep/ x no argument x the mixed damage vector x {no flag} (thorough: 2 vectors x {none, fetchexclude=skip/} x {no flag, --objects, --dry-run}): the index scan's `git diff-index` is started from the sub-directory too; thorough: cwd/misc = all 27 assignments x {sub/, 'sp ace/'} x every revision argument x {no flag, --pointers}.  " +
+		"distinct_nontrivial = distinct cases in which at least one object is damaged, one path is not a canonical pointer, a .gitattributes file is padded, the examined index differs from HEAD, the case belongs to the attribute-layout world or fsck is started from a sub-directory (all-intact all-canonical cases of an unchanged index only count as executions)"
 	c.Assumptions = []string{
 		"scope per docs/man/git-lfs-fsck.adoc: no argument = HEAD plus (objects only) the index; one committish = that commit only; A..B = the commits in the range",
 		"A..B, objects: an object referenced by a tree of the range but already referenced in A or an ancestor may or may not be named (man page silent on whether unchanged files of the range count); objects first referenced inside the range must be named",
@@ -957,6 +1080,8 @@ func TestVerifC13(t *testing.T) {
 		"'--dry-run changes nothing' is read as: lfs/objects, lfs/bad, the Git object database, refs, index, config, hooks and the working tree are unchanged (every regular file and symlink of the repository directory: content and mode; inode and mtime too below .git/lfs); NEW files below .git/lfs/tmp (git-lfs' transient area) are tolerated and counted (counter lfs-tmp-file-left-behind*, see props/C13/finding-2.md); creation of empty directories and directory mtimes are ignored",
 		"without --dry-run the same comparison applies, except that reported corrupt objects must have moved to lfs/bad/<oid> with their bytes, and that a NEW valid object appearing in lfs/objects (stored by the clean filter which fsck's `git diff-index -M HEAD` starts on a stat-dirty work-tree file) is tolerated and counted: the statement forbids touching intact objects and moving anything but corrupt ones, not adding valid ones; under --dry-run it is reported (props/C13/finding-3.md)",
 		"index states: the reference scope of the no-argument form is HEAD plus (object check only) the index, each tree at its own current paths: an object is demanded when a tracked, non-excluded path of HEAD or of the index references it through a decodable pointer, whatever the staged operation was (a file staged for deletion or moved away is still in HEAD; a moved/copied/added file counts at its NEW path); rename detection is an implementation detail of the scan and must not change the answer",
+		"a file is 'tracked' in a commit iff git itself gives its path filter=lfs from the attribute files of THAT commit's tree (gitattributes(5) precedence: nested file over parent directory's, later line over earlier, `!attr`/`-attr`/`attr=other` of a later or more specific line override, macros only from the top-level file, `lockable` is unrelated to `filter`); a file at a path without filter=lfs is no pointer problem whatever it contains, a pointer-shaped one references its object 'maybe'",
+		"the directory `git lfs fsck` is started from is not part of the statement: started from any sub-directory of the work tree the same report, exit status and moves are demanded as from its top",
 		"work tree holds pointer text (as after GIT_LFS_SKIP_SMUDGE=1 checkout) and is stat-clean; hooks and local filter config are installed beforehand; linear histories only",
 		"git 2.39.5; subprocess timeout 60 s is a tool guard (=> inconclusive)",
 	}
